@@ -10,7 +10,24 @@ use arbitrary::Unstructured;
 use libfuzzer_sys::fuzz_target;
 use policy::{Kind, POp, Scenario};
 
-const COSTS: [u64; 8] = [0, 1, 2, 3, 10, 1000, 7, u64::MAX / 4];
+pub fn panic_msg(p: &Box<dyn std::any::Any + Send>) -> String {
+  if let Some(s) = p.downcast_ref::<&str>() {
+    s.to_string()
+  } else if let Some(s) = p.downcast_ref::<String>() {
+    s.clone()
+  } else {
+    "non-string panic".to_string()
+  }
+}
+pub fn trace_on() -> bool {
+  false
+}
+pub fn panic_site(msg: &str) -> String {
+  msg.chars().take(48).map(|c| if c.is_ascii_alphanumeric() { c } else { '_' }).collect()
+}
+
+// costs stay small: a total cost that overflows u64 is outside the domain (capacity is a u64)
+const COSTS: [u64; 8] = [0, 1, 2, 3, 10, 1000, 7, 50];
 const CAPS: [u64; 7] = [1, 2, 5, 10, 100, 2000, 3];
 const EVICTS: [u64; 9] = [0, 1, 2, 3, 5, 11, 1000, 2500, u64::MAX];
 
